@@ -11,6 +11,7 @@ from vlib import tables
 from vlib.common import NCPU, Run, Shard, describe_exc, rng, run_shards
 
 ALLOWED = {}
+STATE = {}
 
 
 def drive(coro):
@@ -99,6 +100,29 @@ def poison(sh: Shard, rig, ref):
             sh.see("rejected_write_outcomes", f"{ref.kind}:{type(bad).__name__}:{type(exc).__name__ if exc else 'no-exception'}:{len(cap)}-emitted")
 
 
+def revoke(sh: Shard, stem, rig, ref, r, keyp):
+    """Write permission withdrawn through the public setter (and given back): while it is withdrawn
+    the item refuses like one published read-only."""
+    if ref.rw is None or ref.kind == "Temp":
+        return
+    dom = domain(ref)
+    if not dom:
+        return
+    value = dom[r.randrange(len(dom))][0]
+    accs = [rig.sync.accessors[ref.tag], rig.asyn.accessors[ref.tag]]
+    for a in accs:
+        a.set_read_write(None)
+    try:
+        for path in PATHS:
+            cap, exc = rig.write(path, ref.tag, value)
+            sh.count("writes_after_permission_withdrawn")
+            if exc is None or cap:
+                sh.violation(f"{keyp}:not-refused-after-revocation", f"{stem}/{ref.tag}: write via {path} after set_read_write(None) was not refused (emitted {cap})", {"module": stem, "item": ref.tag, "path": path, "value": value})
+    finally:
+        for a in accs:
+            a.set_read_write(ref.rw)
+
+
 def priors(ref, r, exhaustive=False):
     full = (1 << (8 * ref.width)) - 1
     if exhaustive:
@@ -156,6 +180,16 @@ def judge(sh: Shard, stem, ref, rig, block, value, expect, neighbours, keyp):
                     sh.violation(f"{keyp}:neighbour-changed", f"write to {stem}/{ref.tag} changed disjoint item {ntag} from {before!r} to {after!r}", dict(w, neighbour=ntag))
         finally:
             rig.set_block(block)
+    # the same request again, at once (the spa acknowledged but did not act, the user presses again):
+    # it is a write like any other - the same device write goes out again
+    STATE["n"] = STATE.get("n", 0) + 1
+    if ref.rw is not None and STATE["n"] % 4 == 0 and "async/GeckoAsyncStructure" in tuples:
+        for path in ("async/GeckoAsyncStructure", "sync/GeckoAsyncStructure"):
+            cap, exc = rig.write(path, ref.tag, value)
+            sh.count("writes_repeated_at_once")
+            again = tuple(cap[0][1:]) if (exc is None and len(cap) == 1) else ("raised " + type(exc).__name__ if exc else f"{len(cap)} writes")
+            if again != tuples.get(path):
+                sh.violation(f"{keyp}:repeat-differs", f"{stem}/{ref.tag}: the same write of {value!r} repeated at once via {path} gives {again!r}, the first time {tuples.get(path)!r}", {"module": stem, "item": ref.tag, "path": path, "value": value})
     if len(set(tuples.values())) > 1:
         sh.violation(f"{keyp}:paths-differ", f"{stem}/{ref.tag}: blocking and awaitable paths emit different device writes {tuples}", {"module": stem, "item": ref.tag, "value": value, "tuples": {k: list(v) for k, v in tuples.items()}})
 
@@ -298,6 +332,7 @@ def shard_modules(sh: Shard, stems, seed, tier):
                         overlap_witness(sh, stem, rig, block, ref, r2, m1 & m2, r)
             share = share[:6]
             poison(sh, rig, ref)
+            revoke(sh, stem, rig, ref, r, keyp)
             for value, expect in domain(ref):
                 for prior in priors(ref, r):
                     b = block[: ref.pos] + prior.to_bytes(ref.width, "big") + block[ref.pos + ref.width :]
@@ -373,6 +408,7 @@ def main(tier, seed):
     run.need(run.counters.get("items", 0) >= 20000, "fewer than 20000 items driven")
     run.need(run.counters.get("refusals_observed", 0) > 0, "no read-only refusal observed")
     run.need(run.counters.get("writes", 0) > 100000, "too few writes observed")
+    run.need(run.counters.get("writes_repeated_at_once", 0) > 10000 and run.counters.get("writes_after_permission_withdrawn", 0) > 10000, "repeated writes / writes after a withdrawn permission hardly driven")
     run.need(run.counters.get("rejected_writes_attempted", 0) > 1000 and run.counters.get("temperature_decimals_through_all_paths", 0) > 1000, "rejected writes / arbitrary temperature decimals never driven")
     return run.finish(
         rule="every item of every cfg/log module (loaded with a partner table of its platform), every value of its domain (all distinct labels / booleans and their string forms / byte, word, time corner values incl. padded, signed and blank-wrapped decimal strings / temperature readings in both units; arbitrary temperature decimals for the identical-writes clause; each writable item first receives writes it must reject, on the same long-lived accessor objects) x a set of prior field contents (0, all-ones, random, alternating, complement of the field; thorough: ALL prior contents for one representative item per distinct shape) x three write paths; one evaluation = one (item, prior, value) case; distinct = distinct (module,item) pairs driven (+ shapes exhausted)",
